@@ -55,25 +55,35 @@ def verify(wt, pid):
         sh("git -C /repo worktree remove --force %s" % v)
 
 
-def detect(src, pids):
+def detect(src, pids, tier="quick"):
+    """run the checks against a scratch worktree of /repo HEAD with the patch applied (MIROS_REPO), so that
+    /repo itself and /verif/evidence are left alone and several detections can run side by side"""
     patch = find(src, None)[0] if glob.glob(os.path.join(src, "demo*.py")) else os.path.join(src, "patch.diff")
-    rc, out = sh("git -C /repo status --porcelain")
-    assert out.strip() == "", "/repo not clean: " + out
-    rc, out = sh("git -C /repo apply %s" % patch)
+    v = "/tmp/dwt_%s_%d" % (os.path.basename(src.rstrip("/")), os.getpid())
+    rc, out = sh("git -C /repo worktree add -q %s HEAD" % v)
     assert rc == 0, out
+    evd = v + "_ev"
+    os.makedirs(evd, exist_ok=True)
     res = {}
     try:
+        rc, out = sh("git apply %s" % patch, cwd=v)
+        if rc != 0:
+            rc, out = sh("git apply --3way %s && git reset -q" % patch, cwd=v)
+        assert rc == 0, "patch does not apply: " + out
+        env = dict(os.environ, MIROS_REPO=v, VERIF_EVIDENCE_DIR=evd)
         for pid in pids:
             t = time.time()
-            rc, out = sh("timeout 1500 ./check %s" % pid, cwd=VERIF)
+            rc, out = sh("timeout 3000 ./check %s --tier %s" % (pid, tier), cwd=VERIF, env=env, timeout=3100)
             lines = [l for l in out.splitlines() if l.startswith(("VIOLATION", "TOOLING", "KNOWN"))][:4]
             print("check %s -> exit %d (%.0fs)" % (pid, rc, time.time() - t))
             for l in lines:
                 print("   ", l[:300])
+            if rc not in (0, 1):
+                print(out[-1500:])
             res[pid] = rc
     finally:
-        sh("git -C /repo checkout -- .")
-        sh("git -C %s checkout -- evidence" % VERIF)
+        sh("git -C /repo worktree remove --force %s" % v)
+        shutil.rmtree(evd, True)
     return res
 
 
@@ -95,7 +105,11 @@ if __name__ == "__main__":
     if cmd == "verify":
         sys.exit(0 if verify(sys.argv[2], sys.argv[3]) else 1)
     elif cmd == "detect":
-        r = detect(sys.argv[2], sys.argv[3:])
+        a = sys.argv[3:]
+        tier = "quick"
+        if a and a[0] in ("quick", "thorough"):
+            tier, a = a[0], a[1:]
+        r = detect(sys.argv[2], a, tier)
         sys.exit(0)
     elif cmd == "keep":
         keep(sys.argv[2], sys.argv[3], sys.argv[4], sys.argv[5], sys.argv[6] if len(sys.argv) > 6 else "")
